@@ -229,7 +229,23 @@ pub fn random_pieces(rng: &mut Rng, max_atoms: usize) -> Vec<Piece> {
                 out.push(plain(s));
             }
         } else if k < 72 {
-            out.push(plain(rng.s(NUMERALS)));
+            if rng.chance(1, 4) {
+                // a numeral with more significant digits than an f64 holds (and a fraction): its value must not
+                // depend on how the scanner is fed (glued, spaced out, after which token)
+                let int_digits = rng.usize(4);
+                let frac_digits = 14 + rng.usize(8);
+                let mut t = String::new();
+                for _ in 0..int_digits {
+                    t.push((b'0' + rng.below(10) as u8) as char);
+                }
+                t.push('.');
+                for _ in 0..frac_digits {
+                    t.push((b'0' + rng.below(10) as u8) as char);
+                }
+                out.push(plain(&t));
+            } else {
+                out.push(plain(rng.s(NUMERALS)));
+            }
         } else if k < 80 {
             out.push(literal(rng.s(STRINGS)));
         } else if k < 90 {
